@@ -88,7 +88,10 @@ URL_IN_TEXT_RE = re.compile(
 URL_IN_HTML = r"""<a[^>]*\shref=(?:"([^"]*)"|'([^']*)'|([^\s>]*))[^>]*>"""
 URL_IN_HTML_BINARY = URL_IN_HTML.encode()
 
-URL_IN_HTML_RE = re.compile(URL_IN_HTML, re.I)
+# NOTE: the str patterns must read a document exactly like their bytes twins
+# read its utf-8 encoding, hence the ASCII flag (\s, \b and re.I are otherwise
+# unicode-aware for str only: "<a\xa0href=...>", "<scripté>", "<ſcript>")
+URL_IN_HTML_RE = re.compile(URL_IN_HTML, re.I | re.A)
 URL_IN_HTML_BINARY_RE = re.compile(URL_IN_HTML_BINARY, re.I)
 
 QUERY_VALUE_IN_URL_TEMPLATE = r"(?:^|[?&])(%s)=([^&]+)"
@@ -103,5 +106,5 @@ SUBDOMAINS = r"(?:[^\s./?#:@]+\.)*"
 SCRIPT_TAG = r"<script\b[^<]*(?:(?!<\/script>)<[^<]*)*<\/script>"
 SCRIPT_TAG_BINARY = SCRIPT_TAG.encode()
 
-SCRIPT_TAG_RE = re.compile(SCRIPT_TAG, re.I)
+SCRIPT_TAG_RE = re.compile(SCRIPT_TAG, re.I | re.A)
 SCRIPT_TAG_BINARY_RE = re.compile(SCRIPT_TAG_BINARY, re.I)
